@@ -104,26 +104,23 @@ func ruleJump(c *Ctx) {
 	}
 	_ = info
 	type emitted struct {
-		count Lin
-		last  ast.Expr
+		count  Lin
+		last   Lin // value of the last opcode of this emission
+		lastOK bool
 	}
-	// run interprets a helper: returns final env, the list of emissions, the return expression value, stores into c.code
+	// run interprets a helper by linear arithmetic; other methods of the compiler it calls are entered with
+	// their integer parameters bound to the argument values and their slice parameters to the argument's
+	// length. It returns the final len(c.code), the emissions, the returned value and the stores into c.code.
 	type store struct{ idx, val Lin }
-	run := func(fd *ast.FuncDecl) (env *jEnv, emits []emitted, ret *Lin, stores []store, ok bool) {
+	type runState struct {
+		L      Lin
+		emits  []emitted
+		stores []store
+		ok     bool
+	}
+	var exec func(fd *ast.FuncDecl, rs *runState, vars, lens map[string]Lin, depth int) *Lin
+	exec = func(fd *ast.FuncDecl, rs *runState, vars, lens map[string]Lin, depth int) *Lin {
 		recv := fd.Recv.List[0].Names[0].Name
-		env = &jEnv{vars: map[string]Lin{}, L: linAtom("L")}
-		variadic := ""
-		for _, f := range fd.Type.Params.List {
-			for _, nm := range f.Names {
-				if _, isEll := f.Type.(*ast.Ellipsis); isEll {
-					variadic = nm.Name
-					continue
-				}
-				if b, okb := info.TypeOf(f.Type).Underlying().(*types.Basic); okb && b.Info()&types.IsInteger != 0 {
-					env.vars[nm.Name] = linAtom("P_" + nm.Name)
-				}
-			}
-		}
 		var lin func(e ast.Expr) (Lin, bool)
 		lin = func(e ast.Expr) (Lin, bool) {
 			switch v := e.(type) {
@@ -134,16 +131,18 @@ func ruleJump(c *Ctx) {
 					return linC(n), true
 				}
 			case *ast.Ident:
-				if l, okv := env.vars[v.Name]; okv {
+				if l, okv := vars[v.Name]; okv {
 					return l, true
 				}
 			case *ast.CallExpr:
 				if isIdent(v.Fun, "len") && len(v.Args) == 1 {
 					if isSel(v.Args[0], recv, "code") {
-						return env.L, true
+						return rs.L, true
 					}
-					if variadic != "" && isIdent(v.Args[0], variadic) {
-						return linAtom("A"), true
+					if id, isId := v.Args[0].(*ast.Ident); isId {
+						if l, okl := lens[id.Name]; okl {
+							return l, true
+						}
 					}
 				}
 				if isIdent(v.Fun, "opcodeInt") && len(v.Args) == 1 {
@@ -166,100 +165,136 @@ func ruleJump(c *Ctx) {
 			}
 			return Lin{}, false
 		}
-		ok = true
+		var ret *Lin
 		for _, st := range fd.Body.List {
 			switch s := st.(type) {
 			case *ast.AssignStmt:
 				if len(s.Lhs) != 1 || len(s.Rhs) != 1 {
-					ok = false
+					rs.ok = false
 					continue
 				}
 				if ix, isIx := s.Lhs[0].(*ast.IndexExpr); isIx && isSel(ix.X, recv, "code") {
 					i, ok1 := lin(ix.Index)
 					v, ok2 := lin(s.Rhs[0])
 					if ok1 && ok2 {
-						stores = append(stores, store{i, v})
+						rs.stores = append(rs.stores, store{i, v})
 					} else {
-						ok = false
+						rs.ok = false
 					}
 					continue
 				}
 				if id, isId := s.Lhs[0].(*ast.Ident); isId {
 					if v, okv := lin(s.Rhs[0]); okv {
-						env.vars[id.Name] = v
+						vars[id.Name] = v
 						continue
 					}
 				}
-				ok = false
+				rs.ok = false
 			case *ast.ExprStmt:
 				call, isCall := s.X.(*ast.CallExpr)
 				if !isCall {
-					ok = false
+					rs.ok = false
 					continue
 				}
 				se, isSe := call.Fun.(*ast.SelectorExpr)
-				if !isSe || !isIdent(se.X, recv) || se.Sel.Name != "add" {
-					ok = false
+				if !isSe || !isIdent(se.X, recv) {
+					rs.ok = false
 					continue
 				}
-				cnt := linC(len(call.Args))
-				var last ast.Expr
-				if len(call.Args) > 0 {
-					last = call.Args[len(call.Args)-1]
+				if se.Sel.Name == "add" {
+					em := emitted{count: linC(len(call.Args))}
+					if len(call.Args) > 0 {
+						em.last, em.lastOK = lin(call.Args[len(call.Args)-1])
+					}
+					if call.Ellipsis.IsValid() {
+						em.lastOK = false
+						if id, isId := call.Args[len(call.Args)-1].(*ast.Ident); isId && len(call.Args) == 1 {
+							if l, okl := lens[id.Name]; okl {
+								em.count = l
+							} else {
+								rs.ok = false
+							}
+						} else {
+							rs.ok = false
+						}
+					}
+					rs.emits = append(rs.emits, em)
+					rs.L = rs.L.Add(em.count)
+					continue
 				}
-				if call.Ellipsis.IsValid() {
-					cnt = linAtom("A")
-					last = nil
+				// another method of the compiler: entered
+				callee := helper(se.Sel.Name)
+				if callee == nil || callee.Body == nil || depth >= 3 {
+					rs.ok = false
+					continue
 				}
-				emits = append(emits, emitted{cnt, last})
-				env.L = env.L.Add(cnt)
+				cvars, clens := map[string]Lin{}, map[string]Lin{}
+				i := 0
+				for _, f := range callee.Type.Params.List {
+					for _, nm := range f.Names {
+						if i >= len(call.Args) {
+							break
+						}
+						arg := call.Args[i]
+						t := info.TypeOf(f.Type)
+						if _, isEll := f.Type.(*ast.Ellipsis); isEll {
+							t = types.NewSlice(info.TypeOf(f.Type.(*ast.Ellipsis).Elt))
+						}
+						if b, okb := t.Underlying().(*types.Basic); okb && b.Info()&types.IsInteger != 0 {
+							if v, okv := lin(arg); okv {
+								cvars[nm.Name] = v
+							}
+						} else if _, isSl := t.Underlying().(*types.Slice); isSl {
+							if id, isId := arg.(*ast.Ident); isId {
+								if l, okl := lens[id.Name]; okl {
+									clens[nm.Name] = l
+								}
+							}
+						}
+						i++
+					}
+				}
+				exec(callee, rs, cvars, clens, depth+1)
 			case *ast.ReturnStmt:
 				if len(s.Results) == 1 {
 					if v, okv := lin(s.Results[0]); okv {
 						ret = &v
 					} else {
-						ok = false
+						rs.ok = false
 					}
 				}
 			default:
-				ok = false
+				rs.ok = false
 			}
 		}
-		// evaluate the last emission's value if it is an expression
-		return
+		return ret
 	}
-	linOf := func(fd *ast.FuncDecl, env *jEnv, e ast.Expr) (Lin, bool) {
-		// re-evaluate a (simple) expression in the final environment
-		switch v := e.(type) {
-		case *ast.BasicLit:
-			if n, err := strconv.Atoi(v.Value); err == nil {
-				return linC(n), true
-			}
-		case *ast.Ident:
-			if l, ok := env.vars[v.Name]; ok {
-				return l, true
-			}
-		case *ast.CallExpr:
-			if len(v.Args) == 1 {
-				if id, ok := v.Args[0].(*ast.Ident); ok {
-					if l, ok := env.vars[id.Name]; ok {
-						return l, true
-					}
+	run := func(fd *ast.FuncDecl) (L Lin, emits []emitted, ret *Lin, stores []store, ok bool) {
+		rs := &runState{L: linAtom("L"), ok: true}
+		vars, lens := map[string]Lin{}, map[string]Lin{}
+		for _, f := range fd.Type.Params.List {
+			for _, nm := range f.Names {
+				if _, isEll := f.Type.(*ast.Ellipsis); isEll {
+					lens[nm.Name] = linAtom("A")
+					continue
+				}
+				if b, okb := info.TypeOf(f.Type).Underlying().(*types.Basic); okb && b.Info()&types.IsInteger != 0 {
+					vars[nm.Name] = linAtom("P_" + nm.Name)
 				}
 			}
 		}
-		return Lin{}, false
+		ret = exec(fd, rs, vars, lens, 0)
+		return rs.L, rs.emits, ret, rs.stores, rs.ok
 	}
 	L0 := linAtom("L")
 	A := linAtom("A")
 	endAddr := L0.Add(A).Add(linC(2)) // op + args + offset
 	// jumpForward
 	if fd := helper("jumpForward"); fd != nil {
-		env, emits, ret, _, ok := run(fd)
-		good := ok && ret != nil && ret.Eq(env.L) && env.L.Eq(endAddr) && len(emits) == 3
+		L, emits, ret, _, ok := run(fd)
+		good := ok && ret != nil && ret.Eq(L) && L.Eq(endAddr) && len(emits) == 3
 		if good {
-			v, okv := linOf(fd, env, emits[2].last)
-			good = okv && emits[2].count.Eq(linC(1)) && v.IsZero()
+			good = emits[2].lastOK && emits[2].count.Eq(linC(1)) && emits[2].last.IsZero()
 		}
 		c.check(good, "jump:compiler:jumpForward", fd.Pos(), "emits op, args and a zero placeholder last; returns the address after them",
 			"jumpForward does not emit <op, args..., placeholder> and return the address just after the placeholder: patchForward would patch the wrong opcode or compute the offset from the wrong base")
@@ -268,9 +303,9 @@ func ruleJump(c *Ctx) {
 	}
 	// patchForward
 	if fd := helper("patchForward"); fd != nil {
-		env, emits, _, stores, ok := run(fd)
+		L, emits, _, stores, ok := run(fd)
 		mark := linAtom("P_" + fd.Type.Params.List[0].Names[0].Name)
-		good := ok && len(emits) == 0 && len(stores) == 1 && stores[0].idx.Eq(mark.Sub(linC(1))) && stores[0].val.Eq(env.L.Sub(mark))
+		good := ok && len(emits) == 0 && len(stores) == 1 && stores[0].idx.Eq(mark.Sub(linC(1))) && stores[0].val.Eq(L.Sub(mark))
 		c.check(good, "jump:compiler:patchForward", fd.Pos(), "stores len(code)-mark into the opcode before mark: target = len(code) at patch time",
 			"patchForward does not store len(c.code)-mark at index mark-1: forward jumps (if/else, loop exits, && || ?:) land one instruction off")
 	} else {
@@ -278,12 +313,11 @@ func ruleJump(c *Ctx) {
 	}
 	// jumpBackward
 	if fd := helper("jumpBackward"); fd != nil {
-		env, emits, _, _, ok := run(fd)
+		L, emits, _, _, ok := run(fd)
 		label := linAtom("P_" + fd.Type.Params.List[0].Names[0].Name)
-		good := ok && len(emits) == 3 && env.L.Eq(endAddr)
+		good := ok && len(emits) == 3 && L.Eq(endAddr)
 		if good {
-			v, okv := linOf(fd, env, emits[2].last)
-			good = okv && emits[2].count.Eq(linC(1)) && v.Eq(label.Sub(endAddr))
+			good = emits[2].lastOK && emits[2].count.Eq(linC(1)) && emits[2].last.Eq(label.Sub(endAddr))
 		}
 		c.check(good, "jump:compiler:jumpBackward", fd.Pos(), "emits op, args and label-(address after the instruction) last: target = label",
 			"jumpBackward's offset is not label minus the address just after the instruction it emits (or is not the last opcode emitted): loops jump back to the wrong instruction")
